@@ -114,6 +114,11 @@ Lemma split_firstn_skipn : forall (A : Type) n (l : list A), l = firstn n l ++ s
 Proof. intros. symmetry. apply firstn_skipn. Qed.
 
 
+Lemma skipn_app_exact : forall (A : Type) n (a b : list A), length a = n -> skipn n (a ++ b) = b.
+Proof.
+  intros A n a b H. subst n. induction a as [|x a IH]; [reflexivity|]. cbn. exact IH.
+Qed.
+
 Lemma skipn_skipn' : forall (A : Type) y x (l : list A), skipn x (skipn y l) = skipn (y + x) l.
 Proof.
   induction y; intros x l; [reflexivity|]. destruct l; [cbn; destruct x; reflexivity|]. cbn [skipn plus]. apply IHy.
@@ -433,5 +438,135 @@ Section Sound.
     split; [intros CC; apply C, Fc, CC|].
     exists c. split; [rewrite O, K1a; reflexivity|].
     intros acc F LF. rewrite GA in SP. apply SP. rewrite app_length. cbn. lia.
+  Qed.
+
+  (* ---------------------------------------------------------------- selectDecoder *)
+  Definition pending (s : st) (bs : list byte) : Prop :=
+    (s_magic s = 0 /\ bs = s_in s) \/
+    (exists hdr, length hdr = 4%nat /\ le_val hdr = s_magic s /\ s_magic s <> 0 /\ bs = hdr ++ s_in s).
+  Definition handover_ok (s : st) : Prop := s_magic s <> 0 -> is_magic (s_magic s) = true.
+
+  Definition frame_post (test : bool) (s sd : st) (bs : list byte) : Prop :=
+    (clean (s_tr s) -> clean (s_tr sd)) /\
+    exists c bs', pending sd bs' /\ (length bs' < length bs)%nat /\
+      (test = false -> s_out sd = s_out s ++ c) /\
+      (handover_ok sd -> forall acc F, (length bs <= F)%nat ->
+          stream_decode bd false (S F) [] acc bs = stream_decode bd false F [] (acc ++ c) bs').
+
+  Lemma is_skippable_magic : forall m, 0 <= m < 4294967296 -> is_skippable m = true -> is_magic m = true.
+  Proof.
+    intros m R H. unfold is_skippable in H. rewrite skippable_mask_range in H by exact R.
+    unfold is_magic. rewrite H. apply orb_true_r.
+  Qed.
+
+  Lemma dispatch_ok : forall mt test seekable fl hdr mn s sd d,
+    dispatch fdec bdec mt test false seekable fl (le_val hdr) mn s = Ret d sd ->
+    length hdr = 4%nat -> s_magic s = 0 -> bytes_ok (hdr ++ s_in s) = true ->
+    mono s sd /\ d <> DEnd /\ (d = DFrame -> good sd -> frame_post test s sd (hdr ++ s_in s)).
+  Proof.
+    intros mt test seekable fl hdr mn s sd d H L4 Z0 BO. unfold dispatch in H.
+    assert (BH : bytes_ok hdr = true) by (rewrite bytes_ok_app in BO; apply andb_true_iff in BO; tauto).
+    assert (BI : bytes_ok (s_in s) = true) by (rewrite bytes_ok_app in BO; apply andb_true_iff in BO; tauto).
+    assert (RM := le_val_4_range _ BH L4).
+    assert (HB : le_bytes 4 (le_val hdr) = hdr) by (rewrite <- L4; apply le_bytes_le_val; exact BH).
+    assert (LBS : (4 <= length (hdr ++ s_in s))%nat) by (rewrite app_length; lia).
+    assert (FH : firstn 4 (hdr ++ s_in s) = hdr) by (apply firstn_app_exact; exact L4).
+    assert (SH : skipn 4 (hdr ++ s_in s) = s_in s).
+    { apply skipn_app_exact; exact L4. }
+    set (m := le_val hdr) in *.
+    destruct (is_skippable m) eqn:SK.
+    - (* skippable frame *)
+      change (LZ4IO_SKIPPABLE0 =? LZ4IO_MAGICNUMBER) with false in H.
+      change (LZ4IO_SKIPPABLE0 =? LEGACY_MAGICNUMBER) with false in H.
+      change (LZ4IO_SKIPPABLE0 =? LZ4IO_SKIPPABLE0) with true in H. cbv iota in H.
+      destruct (fread fl 4 s) as [szb s1] eqn:R1.
+      destruct (fread_ok _ _ _ _ _ R1) as [M1 [[K1a [K1b [K1c K1d]]] F1]].
+      destruct (len szb =? 4) eqn:E4; cbn [negb] in H; [|discriminate].
+      destruct (fseek_u32 6 seekable fl (le_val szb) s1) as [e s2] eqn:FS.
+      destruct (e =? 0) eqn:EE; [|discriminate]. apply Z.eqb_eq in EE. subst e.
+      inversion H; subst d sd; clear H.
+      split.
+      { (* mono, without knowing the range of the size yet *)
+        destruct (Z_le_gt_dec 0 (le_val szb)) as [NN|NEG].
+        - destruct (fseek_u32_ok _ _ _ _ _ _ _ FS NN) as [M2 _]. eapply mono_trans; [exact M1|exact M2].
+        - cbn [fseek_u32] in FS. replace (le_val szb <=? 0) with true in FS by (symmetry; apply Z.leb_le; lia).
+          assert (ES2 : s2 = s1) by (inversion FS; reflexivity). rewrite ES2. exact M1. }
+      split; [discriminate|]. intros _ G.
+      assert (R1E : s_rerr s1 = false).
+      { destruct (Z_le_gt_dec 0 (le_val szb)) as [NN|NEG].
+        - destruct (fseek_u32_ok _ _ _ _ _ _ _ FS NN) as [M2 _]. destruct (good_back _ _ M2 G) as [GG _]. exact GG.
+        - cbn [fseek_u32] in FS. replace (le_val szb <=? 0) with true in FS by (symmetry; apply Z.leb_le; lia).
+          assert (ES2 : s2 = s1) by (inversion FS; reflexivity). rewrite ES2 in G. destruct G as [GG _]. exact GG. }
+      destruct (F1 R1E) as [Fa [Fb Fc]]. change (Z.to_nat 4) with 4%nat in *.
+      apply Z.eqb_eq in E4. assert (LI : (4 <= length (s_in s))%nat).
+      { subst szb. unfold len in E4. rewrite firstn_length in E4. lia. }
+      assert (BZ : bytes_ok szb = true) by (subst szb; apply bytes_ok_firstn; exact BI).
+      assert (RZ : 0 <= le_val szb < 4294967296) by (apply le_val_4_range; [exact BZ|unfold len in E4; lia]).
+      destruct (fseek_u32_ok _ _ _ _ _ _ _ FS (proj1 RZ)) as [M2 [K2a [K2b [K2c F2]]]].
+      destruct (F2 eq_refl G) as [Fd [Fe Ff]].
+      split; [intros C; apply Ff, Fc, C|].
+      exists [], (s_in s2). split; [left; split; [rewrite K2b, K1b; exact Z0|reflexivity]|].
+      split; [rewrite Fd, skipn_length, Fb, skipn_length, app_length; lia|].
+      split; [intros _; rewrite app_nil_r, K2a; exact K1a|].
+      intros _ acc F LF. rewrite stream_step_nonempty by exact LBS. cbv zeta. rewrite FH, SH. fold m.
+      unfold is_skippable in SK. rewrite skippable_mask_range in SK by exact RM.
+      apply andb_true_iff in SK. destruct SK as [SK1 SK2].
+      assert (N1 : m =? MAGIC = false).
+      { apply Z.eqb_neq. apply Z.leb_le in SK1. unfold MAGIC, MAGIC_SKIP_LO in *. lia. }
+      assert (N2 : m =? MAGIC_LEGACY = false).
+      { apply Z.eqb_neq. apply Z.leb_le in SK1. unfold MAGIC_LEGACY, MAGIC_SKIP_LO in *. lia. }
+      rewrite N1, N2, SK1, SK2. cbn [andb].
+      rewrite (take_firstn _ 4 LI). rewrite <- Fa. rewrite <- Fb. rewrite (take_firstn _ _ Fe). rewrite <- Fd.
+      rewrite app_nil_r. reflexivity.
+    - destruct (m =? LZ4IO_MAGICNUMBER) eqn:EM.
+      + (* LZ4 frame *)
+        apply Z.eqb_eq in EM.
+        assert (HM : hdr = le_bytes 4 LZ4IO_MAGICNUMBER) by (rewrite <- EM; symmetry; exact HB).
+        destruct mt.
+        * destruct (lz4f_mt fdec fl s) as [[] s1|] eqn:E; cbn [lift] in H; [|discriminate].
+          inversion H; subst d sd; clear H.
+          destruct (lz4f_mt_ok _ _ _ E BI) as [M [Ka [Kb [Kc [Kr [C [c [O SP]]]]]]]].
+          split; [exact M|]. split; [discriminate|]. intros _ G.
+          split; [exact C|]. exists c, []. split; [left; split; [rewrite Kb; exact Z0|symmetry; exact Ka]|].
+          split; [cbn; lia|]. split; [intros _; exact O|].
+          intros _ acc F LF. rewrite HM. rewrite SP by (rewrite HM in LF; rewrite app_length in LF; cbn in LF; cbn; lia).
+          destruct F; [lia|]. cbn. reflexivity.
+        * destruct (lz4f_st fdec test fl s) as [[] s1|] eqn:E; cbn [lift] in H; [|discriminate].
+          inversion H; subst d sd; clear H.
+          destruct (lz4f_st_ok _ _ _ _ E) as [M [Kc [Kb [C [c [FD O]]]]]].
+          split; [exact M|]. split; [discriminate|]. intros _ G.
+          split; [exact C|]. exists c, (s_in s1). split; [left; split; [rewrite Kb; exact Z0|reflexivity]|].
+          rewrite <- HM in FD.
+          destruct (frame_decode_suffix _ _ _ _ _ _ FD) as [pre [EP [LP _]]].
+          split; [rewrite EP, app_length; lia|]. split; [exact O|].
+          intros _ acc F LF. rewrite stream_step_nonempty by exact LBS. cbv zeta. rewrite FH. fold m.
+          change MAGIC with LZ4IO_MAGICNUMBER. rewrite EM. rewrite Z.eqb_refl. rewrite FD. reflexivity.
+      + destruct (m =? LEGACY_MAGICNUMBER) eqn:EL.
+        * (* legacy frame *)
+          destruct (legacy bdec mt fl s) as [[] s1|] eqn:E; cbn [lift] in H; [|discriminate].
+          inversion H; subst d sd; clear H.
+          destruct (legacy_ok _ _ _ _ E) as [M [Kc [Kr SS]]].
+          split; [exact M|]. split; [discriminate|]. intros _ G.
+          destruct (SS G Z0) as [C [c [O P]]].
+          split; [exact C|].
+          assert (STEP : forall rest acc F, (length (hdr ++ s_in s) <= F)%nat ->
+                    legacy_blocks bd (S (length (s_in s))) [] (s_in s) = Some ([] ++ c, rest) ->
+                    stream_decode bd false (S F) [] acc (hdr ++ s_in s) = stream_decode bd false F [] (acc ++ c) rest).
+          { intros rest acc F LF LB. rewrite stream_step_nonempty by exact LBS. cbv zeta. rewrite FH, SH. fold m.
+            change MAGIC with LZ4IO_MAGICNUMBER. change MAGIC_LEGACY with LEGACY_MAGICNUMBER. rewrite EM, EL.
+            rewrite LB. reflexivity. }
+          destruct P as [[Pa [Pb Pc]]|[h [Pa [Pb [Pc [Pd Pe]]]]]].
+          -- exists c, []. split; [left; split; [exact Pa|symmetry; exact Pb]|].
+             split; [rewrite app_length; cbn [length]; lia|]. split; [intros _; exact O|].
+             intros _ acc F LF. apply STEP; [exact LF|]. apply Pc. lia.
+          -- exists c, (h ++ s_in s1).
+             split; [right; exists h; split; [exact Pa|]; split; [exact Pb|]; split; [unfold LZ4IO_LEGACY_BOUND in Pc; lia|reflexivity]|].
+             split; [rewrite !app_length; lia|]. split; [intros _; exact O|].
+             intros HO acc F LF. apply STEP; [exact LF|]. apply Pe; [lia|]. apply HO. unfold LZ4IO_LEGACY_BOUND in Pc. lia.
+        * (* unknown magic number *)
+          destruct (m =? LZ4IO_SKIPPABLE0) eqn:E0.
+          { exfalso. apply Z.eqb_eq in E0. unfold is_skippable in SK. rewrite E0 in SK. discriminate. }
+          destruct (s_nbFrames s =? 1); [cbn [andb] in H; discriminate|].
+          inversion H; subst d sd; clear H. split; [apply mono_refl|]. split; [discriminate|]. intros D; discriminate.
   Qed.
 End Sound.
